@@ -38,8 +38,9 @@ def emit(repo, outdir, fname, header, jobs, write):
         opts = dict(j.get("opts", {}))
         opts.setdefault("ret_type", j["ret"])
         try:
-            term = rsexpr.translate_fn(cache[rel], j["hdr"], j.get("paths", {}), j.get("funcs", {}), j.get("subst", []),
-                                       structs=j.get("structs"), resub=j.get("resub", ()), opts=opts)
+            tr = rsexpr.translate_expr_after if j.get("expr_after") else rsexpr.translate_fn
+            term = tr(cache[rel], j["hdr"], j.get("paths", {}), j.get("funcs", {}), j.get("subst", []),
+                      structs=j.get("structs"), resub=j.get("resub", ()), opts=opts)
         except rsexpr.TranslateError as e:
             raise JobError("%s (%s): %s" % (j["name"], rel, e))
         out.append("/-- `%s` — %s%s -/" % (j["name"], rel, (": " + j["doc"]) if j.get("doc") else ""))
@@ -403,8 +404,62 @@ def valid_functions(repo, outdir, write):
     return emit(repo, outdir, "ValidGen.lean", hdr, valid_jobs(repo), write)
 
 
+# ---------------------------------------------------------------------------------------------
+# C09: simplify.rs (the selection step of `compute_rdp`), simplify_vw.rs (`VScore` ordering); C08: convex_hull/graham.rs, utils.rs
+
+SIMP = "geo/src/algorithm/simplify.rs"
+SVW = "geo/src/algorithm/simplify_vw.rs"
+GRAHAM = "geo/src/algorithm/convex_hull/graham.rs"
+UTILS = "geo/src/utils.rs"
+ORD_PATHS = {"Ordering::Less": "Ordering.lt", "Ordering::Equal": "Ordering.eq", "Ordering::Greater": "Ordering.gt",
+             "Orientation::CounterClockwise": "Ori.ccw", "Orientation::Clockwise": "Ori.cw", "Orientation::Collinear": "Ori.col"}
+# `a.partial_cmp(&b)` on numbers = Gen.partialCmp? (never None: no NaN), `.unwrap()` = Gen.unwrap, `Ordering::then` = Ordering.then
+CMP_FUNCS = {".partial_cmp": "(Gen.partialCmp? {0} {1})", ".then": "(Ordering.then {0} {1})"}
+
+
+def simplify_jobs(repo):
+    return [
+        # the closure folded over the interior indices of `compute_rdp`: which (index, distance) pair survives; `>=`: the last
+        # maximum wins. (The distances themselves are square roots in the code, squared in the model: the step is the same.)
+        dict(file=SIMP, hdr=r"\|\(farthest_index, farthest_distance\), \(index, distance\)\| \{", name="rdpFoldStep",
+             params="(farthest_index : Nat) (farthest_distance : Rat) (index : Nat) (distance : Rat)", ret="Nat × Rat"),
+        # `impl Ord for VScore` (a min-heap on the area: the comparison is reversed) and `impl PartialEq`
+        dict(file=SVW, hdr=r"fn cmp\(&self, other: &VScore<T>\) -> Ordering \{", name="vscoreCmp", params="(self_ other : Simp.VScore)",
+             ret="Ordering", funcs=CMP_FUNCS, subst=[("self", "self_")], opts={"accessors": {"unwrap": "(Gen.unwrap {})"}}),
+        dict(file=SVW, hdr=r"fn eq\(&self, other: &VScore<T>\) -> bool\s+where\s+T: CoordFloat,\s*\{", name="vscoreEq",
+             params="(self_ other : Simp.VScore)", ret="Bool", subst=[("self", "self_")]),
+    ]
+
+
+def simplify_functions(repo, outdir, write):
+    hdr = ["/- generated by translator/rs2lean.py (jobs2) from %s and %s; do not edit -/" % (SIMP, SVW),
+           "import GeoModel.Simplify", "import GeoModel.TRANPrelude", "", "namespace Geo.Gen", "open Geo",
+           "set_option linter.unusedVariables false", ""]
+    return emit(repo, outdir, "SimplifyGen.lean", hdr, simplify_jobs(repo), write)
+
+
+def hull_jobs(repo):
+    return [
+        dict(file=UTILS, hdr=r"pub fn lex_cmp<T: CoordNum>\(p: &Coord<T>, q: &Coord<T>\) -> Ordering \{", name="lexCmp", params="(p q : Pt)",
+             ret="Ordering", funcs=CMP_FUNCS, opts={"accessors": {"unwrap": "(Gen.unwrap {})"}}),
+        # the comparator closure of `graham_hull` (`let cmp = |q, r| match … ;`): the kernel's `square_euclidean_distance` is the
+        # parameter `sqd` (the model rounds it like f64, `Hull.dist2r rnd`), `orient2d` is the exact `Geo.orient`
+        dict(file=GRAHAM, hdr=r"let cmp = \|q: &Coord<T>, r: &Coord<T>\| ", expr_after=True, name="grahamCmp",
+             params="(sqd : Pt → Pt → Rat) (head q r : Pt)", ret="Ordering", paths=ORD_PATHS,
+             funcs=dict(CMP_FUNCS, **{"T::Ker::orient2d": "Geo.orient", "T::Ker::square_euclidean_distance": "(sqd {0} {1})"}),
+             opts={"accessors": {"unwrap": "(Gen.unwrap {})"}}),
+    ]
+
+
+def hull_functions(repo, outdir, write):
+    hdr = ["/- generated by translator/rs2lean.py (jobs2) from %s and %s; do not edit -/" % (GRAHAM, UTILS),
+           "import GeoModel.Hull", "import GeoModel.TRANPrelude", "", "namespace Geo.Gen", "open Geo",
+           "set_option linter.unusedVariables false", ""]
+    return emit(repo, outdir, "HullGen.lean", hdr, hull_jobs(repo), write)
+
+
 ALL = [("ClosestGen.lean", closest_functions), ("CentroidGen.lean", centroid_functions), ("GraphGen.lean", graph_functions),
-       ("ValidGen.lean", valid_functions)]
+       ("ValidGen.lean", valid_functions), ("SimplifyGen.lean", simplify_functions), ("HullGen.lean", hull_functions)]
 
 
 def run(repo, outdir, write):
